@@ -419,8 +419,12 @@ func (fr *Frame) appendVals(st *State, s, t Val, sort Sort) Val {
 	ln := e.name("applen", Arith("+", s.Len, t.Len))
 	// prefix
 	if s.Len.S != "0" {
-		e.assume(T(SBool, "(forall ((k Int)) (! (=> (and (<= 0 k) (< k %s)) (= (select %s k) (select %s (+ %s k)))) :pattern ((select %s k))))",
-			s.Len.S, na.S, sArr.S, s.Off.S, na.S))
+		src := fmt.Sprintf("(select %s (+ %s k))", sArr.S, s.Off.S)
+		if s.Off.S == "0" {
+			src = fmt.Sprintf("(select %s k)", sArr.S)
+		}
+		e.assume(T(SBool, "(forall ((k Int)) (! (=> (and (<= 0 k) (< k %s)) (= (select %s k) %s)) :pattern ((select %s k)) :pattern (%s)))",
+			s.Len.S, na.S, src, na.S, src))
 	}
 	// suffix: ground facts for short literal lengths, else quantified
 	if n, ok := smallLit(t.Len); ok {
@@ -504,12 +508,23 @@ func (fr *Frame) external(st *State, pc Term, callee *ssa.Function, args []Val, 
 		return Val{K: vNone}
 	case "sort.Strings", "sort.Sort":
 		if args[0].K == vSlice {
+			s := args[0]
 			if e.prov != nil {
-				e.prov.write(e, args[0].R, pos, name)
+				e.prov.write(e, s.R, pos, name)
 			}
-			old := st.mem[args[0].R]
-			st.mem[args[0].R] = e.fresh("sorted", old.Sort)
-			e.note("assumed: %s result is an unspecified rearrangement", name)
+			old := st.mem[s.R]
+			na := e.fresh("sorted", old.Sort)
+			st.mem[s.R] = na
+			// assumed contract: the result is a permutation of the input (stated as mutual
+			// membership), unchanged outside the slice; sort.Strings additionally yields ascending order
+			e.assume(T(SBool, "(forall ((i Int)) (! (=> (and (<= 0 i) (< i %s)) (exists ((j Int)) (and (<= 0 j) (< j %s) (= (select %s (+ %s i)) (select %s (+ %s j)))))) :pattern ((select %s (+ %s i)))))",
+				s.Len.S, s.Len.S, na.S, s.Off.S, old.S, s.Off.S, na.S, s.Off.S))
+			e.assume(T(SBool, "(forall ((j Int)) (! (=> (and (<= 0 j) (< j %s)) (exists ((i Int)) (and (<= 0 i) (< i %s) (= (select %s (+ %s i)) (select %s (+ %s j)))))) :pattern ((select %s (+ %s j)))))",
+				s.Len.S, s.Len.S, na.S, s.Off.S, old.S, s.Off.S, old.S, s.Off.S))
+			if name == "sort.Strings" {
+				e.assume(T(SBool, "(forall ((i Int) (j Int)) (=> (and (<= 0 i) (< i j) (< j %s)) (str.<= (select %s (+ %s i)) (select %s (+ %s j)))))",
+					s.Len.S, na.S, s.Off.S, na.S, s.Off.S))
+			}
 		}
 		return Val{K: vNone}
 	}
